@@ -141,7 +141,8 @@ theorem sort_nested_blocks [Inhabited α] (lt : α → α → Bool) (isNull : α
       blocks.map List.length = lens ∧
       (∀ i, i < lens.length → (blocks.getD i []).Perm
         ((List.range flat.index.length).filter fun p => flat.index.getD p (.int 0) == Label.int (i : Int))) ∧
-      (∀ b ∈ blocks, b.Pairwise fun p q => lexLe lt isNull naFirst (sortKeysAt kcols p q) = true) :=
+      (∀ b ∈ blocks, b.Pairwise fun p q => lexLe lt isNull naFirst (sortKeysAt kcols p q) = true) ∧
+      blocks = Spec.splitBy lens (sortPerm lt isNull naFirst flat.index kcols) :=
   sortNested_rows lt isNull F nest c hc hclean hch hidx keys hkeys naFirst hlt
 
 /-- **The hypothesis `KeysOrdered` holds of the order the model is run with** (`cellLt`: numbers by
